@@ -30,6 +30,9 @@ type Reg struct {
 	Jitter   int    `json:"jitter,omitempty"`
 	RunMs    int    `json:"run"`
 	Other    bool   `json:"other,omitempty"` // registered from another goroutine (may race with Stop)
+	// Child: every run of this function starts another function through g.Do from inside the run (re-entrant
+	// use of the group); those children are started "through Do" like any other and obey the same barrier.
+	Child bool `json:"child,omitempty"`
 }
 
 type Trig struct {
@@ -65,6 +68,7 @@ func genPlan(t *rapid.T) Plan {
 			r.AtMs = rapid.SampledFrom([]int{0, 0, 1, 10, 50}).Draw(t, "at")
 			r.Other = rapid.IntRange(0, 3).Draw(t, "other") == 0
 		}
+		r.Child = rapid.IntRange(0, 4).Draw(t, "child") == 0
 		r.Interval = rapid.SampledFrom([]int{10, 100, 300}).Draw(t, "interval")
 		r.Jitter = rapid.SampledFrom([]int{0, 1, r.Interval / 2, r.Interval - 1, r.Interval, r.Interval * 3 / 2, -r.Interval / 5}).Draw(t, "jitter") // no domain is documented: a jitter >= interval just makes some waits zero
 		r.RunMs = rapid.SampledFrom([]int{0, 1, 5, r.Interval * 2}).Draw(t, "run")
@@ -164,6 +168,19 @@ func script(p Plan, out *vk.Outcome) error {
 			r.start = sk.Tick()
 			runs = append(runs, r)
 			mu.Unlock()
+			if p.Regs[i].Child {
+				g.Do(func(ctx context.Context) {
+					c := &runRec{reg: -1, startT: time.Now()}
+					mu.Lock()
+					c.start = sk.Tick()
+					stormRuns = append(stormRuns, c)
+					mu.Unlock()
+					time.Sleep(time.Millisecond)
+					mu.Lock()
+					c.end, c.endT = sk.Tick(), time.Now()
+					mu.Unlock()
+				})
+			}
 			if d := p.Regs[i].RunMs; d > 0 {
 				time.Sleep(time.Duration(d) * time.Millisecond)
 			}
@@ -310,7 +327,7 @@ func script(p Plan, out *vk.Outcome) error {
 	defer mu.Unlock()
 	for _, r := range stormRuns {
 		if r.start > stopReturned || r.end == 0 || r.end > stopReturned {
-			return vk.Violf("started-after-stop", "a Do registered concurrently with StopAndWait ran (start stamp %d, end %d) after StopAndWait had returned (stamp %d)", r.start, r.end, stopReturned)
+			return vk.Violf("started-after-stop", "a Do registered concurrently with StopAndWait, or from inside a running group function, ran (start stamp %d, end %d) after StopAndWait had returned (stamp %d)", r.start, r.end, stopReturned)
 		}
 	}
 	if p.Storm > 0 {
